@@ -8,9 +8,18 @@ pub struct Parsed {
     pub info: naga::valid::ModuleInfo,
 }
 
+pub static LAST_PANIC_LOCATION: std::sync::Mutex<String> = std::sync::Mutex::new(String::new());
+
 pub fn quiet_panics() {
-    // keep stderr readable: panics of the code under test are caught and reported by the judges
-    std::panic::set_hook(Box::new(|_| {}));
+    // keep stderr readable: panics of the code under test are caught and reported by the judges;
+    // the location of the last panic is kept for harness diagnostics
+    std::panic::set_hook(Box::new(|info| {
+        if let Some(l) = info.location() {
+            if let Ok(mut g) = LAST_PANIC_LOCATION.lock() {
+                *g = format!("{}:{}", l.file(), l.line());
+            }
+        }
+    }));
 }
 
 pub fn preflight(wgsl: &str) -> Result<Parsed, String> {
